@@ -851,6 +851,11 @@ where
     /// Gets the root hash at the current epoch.
     #[cfg_attr(feature = "tracing_instrument", tracing::instrument(skip_all))]
     pub async fn get_epoch_hash(&self) -> Result<EpochHash, AkdError> {
+        // Like every other request that reads through the cache: hold the cache lock, so that a cache
+        // flush (see poll_for_azks_changes) cannot fall between a read of the data layer and the caching of
+        // what was read
+        let _guard = self.cache_lock.read().await;
+
         let current_azks = self.retrieve_azks().await?;
         let latest_epoch = current_azks.get_latest_epoch();
         let root_hash = current_azks.get_root_hash::<TC, _>(&self.storage).await?;
